@@ -82,7 +82,7 @@ def tables(ex):
         out.append(f"def conv_{prof}_dnaText : List (Nat × Nat) := [" + ", ".join(f"({a}, {b})" for a, b in cv["dna_text"]) + "]")
         td = []
         for v in cv["text_dna"]:
-            td.append("none" if isinstance(v, str) else f"some {v}")
+            td.append("some 999" if v == "panic" else "none" if isinstance(v, str) else f"some {v}")
         out.append(f"def conv_{prof}_textDna : List (Option Nat) := [" + ", ".join(td) + "]")
         te = []
         for v in cv["text_dna"]:
